@@ -41,40 +41,51 @@ def is_stub(lib, key):
     return False
 
 
-def analyse(lib, key):
-    if key in _RES:
-        return _RES[key]
+_PRIV = {}
+
+
+def analyse(lib, key, ctx=None):
+    """Phase-1 result of function `key`.  ctx: known-bits facts of the argument registers at a call site; used
+    only for private-convention kernels (called solely from assembly), whose summary is computed per context."""
+    mk = (key, ctx) if ctx else key
+    if mk in _RES:
+        return _RES[mk]
     f = lib.func(key)
-    ip = absint.Interp(lib, lambda t: summary_of(lib, t))
-    _INPROG.add(key)
+    ip = absint.Interp(lib, lambda t, c=None: summary_of(lib, t, c), entry_facts=dict(ctx) if ctx else None)
+    _INPROG.add(mk)
     try:
         r = ip.run(f)
     finally:
-        _INPROG.discard(key)
-    _RES[key] = r
+        _INPROG.discard(mk)
+    _RES[mk] = r
     return r
 
 
-def summary_of(lib, tgt):
+def summary_of(lib, tgt, ctx=None):
     if tgt is None:
         return absint.SYSV
     kind, k = tgt
     if kind != "func":
         return absint.SYSV
-    if k in _SUMM:
-        return _SUMM[k]
-    if k in _INPROG:
+    if "set" not in _PRIV:
+        _PRIV["set"] = private_funcs(lib)
+    if not (ctx and k in _PRIV["set"]):
+        ctx = None
+    mk = (k, ctx) if ctx else k
+    if mk in _SUMM:
+        return _SUMM[mk]
+    if mk in _INPROG:
         return absint.SYSV
     f = lib.func(k)
     if f is None:
         return absint.SYSV
     # tail-calling stubs and anything that ends in an indirect jump behave like their (checked) targets
-    r = analyse(lib, k)
+    r = analyse(lib, k, ctx)
     s = r.summary
     if any(kind2 in ("tail", "tail-ind", "fall") for (_i, kind2, _r) in r.exits) or r.broken:
         # a tail call hands control to a SysV-conformant callee: caller-saved registers are gone as well
         s = absint.Summary(s.name, set(s.clobbers) | set(x86.CALLER_SAVED), s.rsp_ok)
-    _SUMM[k] = s
+    _SUMM[mk] = s
     return s
 
 
